@@ -1,6 +1,10 @@
 """C07 — static analysis: load vector = virtual work of the loads; K c = f solved on the active amplitudes.
 H: Model/Static.lean (calc_fext placement/scaling, sparse.solve scatter) vs the running Python through the driver
    (the shape rows g are recorded from the real fg; the solver's reduced answer is recorded from spsolve).
+   Model/BayLoads.lean: StiffPanelBay.calc_fext (fg calls recorded through a proxy of modelDB.db[model]['field']; offsets against
+   the col0 the bay hands to its 2-D stiffeners in calc_k0), PanelAssembly.calc_fext with the col_start of __init__ (load patterns
+   none / constant only / incrementable only / both per panel), Analysis.static(NLgeom=False) / Panel.static / static() with the calls
+   to calc_fext, calc_k0, solve and spsolve recorded by wrapping (ops bayfext / asmfext / static of the driver).
 T: Gen/Field (cfg rows = amplitude-derivative of the series; theorem shape_rows_match_field).
 Implementation arm: fext.c against sum of force x displacement reported by the package's own uvw, for panels,
 assemblies and stiffened bays; residual of the linear static solution; linearity in the loads.
@@ -16,7 +20,9 @@ TRUSTED = pc.TRUSTED_T[:3] + [
     'hand model lean/CompmechVerif/Model/Static.lean of Panel.calc_fext, PanelAssembly.calc_fext and sparse.solve '
     '(remove_null_cols + scatter), tied by the driver correspondence on explored cases',
     'SuperLU spsolve is a parameter of the model: its answer is recorded and fed to the model; its residual is checked per sample',
-    'StiffPanelBay.calc_fext is covered by the virtual-work predicate on explored bays only',
+    'hand model lean/CompmechVerif/Model/BayLoads.lean of StiffPanelBay.calc_fext, PanelAssembly.__init__/get_size/calc_fext, '
+    'sparse.solve with its own used_cols and the linear path of Analysis.static / static(), tied by the driver correspondences '
+    '(bay_model_case, assembly_model_case, static_model_case) on explored cases',
 ]
 ASSUMPTIONS = ['distributed loads do not exist in the panel API: only point forces',
                'a symmetric matrix has null rows exactly where it has null columns (remove_null_cols looks at columns)']
@@ -315,10 +321,858 @@ def stiffened_bay_case(ctx, rng):
     return desc, None
 
 
+# ============================================================================ Model/BayLoads.lean: bay, assembly, Analysis.static
+class LineCov(object):
+    """executed lines of the modelled Python functions while the correspondences run (coverage of the tie)"""
+
+    def __init__(self):
+        import importlib
+        from compmech.stiffpanelbay import StiffPanelBay
+        from compmech.panel.assembly import PanelAssembly
+        from compmech.analysis import Analysis
+        import compmech.sparse as sp
+        sm = importlib.import_module('compmech.analysis.static')
+        self.funcs = {'StiffPanelBay.calc_fext': StiffPanelBay.calc_fext, 'PanelAssembly.calc_fext': PanelAssembly.calc_fext,
+                      'PanelAssembly.__init__': PanelAssembly.__init__, 'PanelAssembly.get_size': PanelAssembly.get_size,
+                      'Analysis.static': Analysis.static, 'analysis.static.static': sm.static, 'sparse.solve': sp.solve}
+        self.codes = dict((f.__code__, k) for k, f in self.funcs.items())
+        self.hit = dict((k, set()) for k in self.funcs)
+        self.old = None
+
+    def _glob(self, frame, event, arg):
+        nm = self.codes.get(frame.f_code)
+        if nm is None:
+            return None
+        hit = self.hit[nm]
+
+        def local(fr, ev, ar):
+            if ev == 'line':
+                hit.add(fr.f_lineno)
+            return local
+        return local
+
+    def __enter__(self):
+        import sys
+        self.old = sys.gettrace()
+        sys.settrace(self._glob)
+        return self
+
+    def __exit__(self, *a):
+        import sys
+        sys.settrace(self.old)
+
+    def report(self):
+        import dis
+        out = {}
+        for k, f in self.funcs.items():
+            lines = set(l for _, l in dis.findlinestarts(f.__code__) if l is not None)
+            lines.discard(f.__code__.co_firstlineno)
+            miss = sorted(lines - self.hit[k])
+            out[k] = dict(lines=len(lines), executed=len(lines) - len(miss), missed=miss)
+        return out
+
+
+class _NoCov(object):
+    def __enter__(self):
+        return self
+
+    def __exit__(self, *a):
+        pass
+
+
+COV = _NoCov()          # replaced by a LineCov for the duration of `correspondence`
+
+
+class FieldRecorder(object):
+    """replaces modelDB.db[model]['field'] of every panel model by a proxy that records every fg call (panel identity, position and
+    the rows it wrote) for the duration of a `with` block"""
+
+    class _Proxy(object):
+        def __init__(self, real, log):
+            self._real = real
+            self._log = log
+
+        def __getattr__(self, name):
+            return getattr(self._real, name)
+
+        def fg(self, g, x, y, panel):
+            self._real.fg(g, x, y, panel)
+            self._log.append((id(panel), float(x), float(y), np.array(g, copy=True)))
+
+    def __init__(self):
+        self.calls = []
+        self.saved = []
+
+    def __enter__(self):
+        from compmech.panel import modelDB
+        for name, entry in modelDB.db.items():
+            if 'field' in entry:
+                self.saved.append((entry, entry['field']))
+                entry['field'] = FieldRecorder._Proxy(entry['field'], self.calls)
+        return self
+
+    def __exit__(self, *a):
+        for entry, real in self.saved:
+            entry['field'] = real
+        self.saved = []
+
+
+def rand_forces(rng, a, b, kmax=3, scale=1.):
+    return [[rng.choice([0., a, rng.uniform(0, a), rng.uniform(0, a)]), rng.choice([0., b, rng.uniform(0, b), rng.uniform(0, b)]),
+             scale * rng.uniform(-1, 1), scale * rng.uniform(-1, 1), scale * rng.uniform(-1, 1)] for _ in range(rng.randint(0, kmax))]
+
+
+def force_text(f, rows, n):
+    """`fx fy fz g0[0..n) g1[0..n) g2[0..n)` (a one-field model has one row: fz goes with it, as Panel.calc_fext does)"""
+    x, y, fx, fy, fz = f
+    if rows.shape[0] == 1:
+        comps, rr = [fz, 0., 0.], [rows[0], np.zeros(n), np.zeros(n)]
+    else:
+        comps, rr = [fx, fy, fz], [rows[0], rows[1], rows[2]]
+    return ' '.join(q(v) for v in comps + list(rr[0]) + list(rr[1]) + list(rr[2]))
+
+
+def forces_text(panel, forces, n, recorded=None):
+    """rows from the recorded fg calls of this very panel when there is one per force, else computed here"""
+    out = []
+    for k, f in enumerate(forces):
+        rows = recorded[k] if recorded is not None and len(recorded) == len(forces) else shape_rows(panel, f[0], f[1])
+        out.append(force_text(f, rows, n))
+    return ' ; '.join(out)
+
+
+def work_of(panel, cl, forces, fac=1.):
+    w_ = 0.
+    cl = np.ascontiguousarray(cl)
+    for (x, y, fx, fy, fz) in forces:
+        u, v, w, _, _ = panel.uvw(cl, xs=np.array([x]), ys=np.array([y]))
+        w_ += fac * (fx * float(np.ravel(u)[0]) + fy * float(np.ravel(v)[0]) + fz * float(np.ravel(w)[0]))
+    return w_
+
+
+def gen_bay_loads(rng, scale=1.):
+    """C13's bay generator (0-2 stiffeners of each kind, pad-up only blades among them) with 0-3 constant AND 0-3 incrementable
+    forces on every loadable part"""
+    from tools.props import C13
+    case = C13.gen_bay(rng)
+    a, b = case['a'], case['b']
+    for s_ in case['stiffs']:
+        s_['forces_flange'], s_['forces_base'], s_['forces_flange_inc'], s_['forces_base_inc'] = [], [], [], []
+        if s_['type'] in ('b2', 't') and s_['flange']:
+            s_['forces_flange'] = rand_forces(rng, a, s_['bf'], 3, scale)
+            s_['forces_flange_inc'] = rand_forces(rng, a, s_['bf'], 3, scale)
+        if s_['type'] == 't':
+            s_['forces_base'] = rand_forces(rng, a, s_['bb'], 3, scale)
+            s_['forces_base_inc'] = rand_forces(rng, a, s_['bb'], 3, scale)
+    case['forces_skin'] = rand_forces(rng, a, b, 3, scale)
+    case['forces_skin_inc'] = rand_forces(rng, a, b, 3, scale)
+    return case
+
+
+def build_bay_loads(case):
+    from tools.props import C13
+    bay, objs = C13.build_bay(case)
+    for s_, o in zip(case['stiffs'], objs):
+        if o is None:
+            continue
+        if s_['type'] in ('b2', 't') and s_['flange']:
+            o.flange.forces_inc = [list(f) for f in s_['forces_flange_inc']]
+        if s_['type'] == 't':
+            o.base.forces_inc = [list(f) for f in s_['forces_base_inc']]
+    bay.panels[0].forces_inc = [list(f) for f in case.get('forces_skin_inc', [])]
+    return bay, objs
+
+
+def bay_parts(bay):
+    """the loadable parts as the object defines them, in the order of the amplitude vector:
+    (tag, index in its stiffener list, Panel object or None for a pad-up only blade, constant list, incrementable list)"""
+    out = [(0, 0, bay.panels[0], bay.forces_skin, bay.panels[0].forces_inc)]
+    for i, s_ in enumerate(bay.bladestiff2ds):
+        out.append((1, i, s_.flange, s_.flange.forces if s_.flange is not None else [], s_.flange.forces_inc if s_.flange is not None else []))
+    for i, s_ in enumerate(bay.tstiff2ds):
+        out.append((2, i, s_.base, s_.base.forces, s_.base.forces_inc))
+        out.append((3, i, s_.flange, s_.flange.forces, s_.flange.forces_inc))
+    return out
+
+
+def bay_model_line(bay, calls=None):
+    """the `bayfext` operation for the bay AS DEFINED (sizes from the parts' own get_size, force lists from the objects, shape rows
+    from the recorded fg calls)"""
+    import compmech.panel.modelDB as pm
+    num = pm.db[bay.model]['num']
+    by_panel = {}
+    for (pid_, x, y, g) in (calls or []):
+        by_panel.setdefault(pid_, []).append(g)
+    fields = []
+    for tag, i, pan, fs, fi in bay_parts(bay):
+        if pan is None:
+            fields.append('b2n')
+            continue
+        n = num * bay.m * bay.n if tag == 0 else pc.quiet(pan.get_size)
+        ft = forces_text(pan, fs, n, by_panel.get(id(pan)))
+        if tag == 0:
+            fields.append('%d %d %d # %s' % (num, bay.m, bay.n, ft))
+            continue
+        part = '%d # %s # %s' % (n, ft, forces_text(pan, fi, n))
+        if tag == 1:
+            fields.append('b2 ' + part)
+        elif tag == 2:
+            fields.append('t ' + part)
+        else:
+            fields[-1] += ' @ ' + part
+    return 'C07 bayfext none | ' + ' | '.join(fields)
+
+
+def bay_predicate(bay, fext):
+    """the property on the implementation: fext . c = work of every force the bay's API knows (skin, flange and base lists)
+    against the displacement of ITS component evaluated with that component's own slice of c"""
+    parts = [(t, i, pan, fs, fi) for t, i, pan, fs, fi in bay_parts(bay) if pan is not None]
+    import compmech.panel.modelDB as pm
+    sizes = [pm.db[bay.model]['num'] * bay.m * bay.n] + [pc.quiet(pan.get_size) for _, _, pan, _, _ in parts[1:]]
+    size = sum(sizes)
+    if np.shape(fext) != (size,):
+        return 'bay fext has shape %r, the component sizes add up to %d' % (np.shape(fext), size)
+    c = np.random.RandomState(size).uniform(-1, 1, size)
+    off, work = 0, 0.
+    for (t, i, pan, fs, fi), sz in zip(parts, sizes):
+        work += work_of(pan, c[off:off + sz], fs)
+        off += sz
+    if abs(float(fext @ c) - work) > 1e-9 * (np.abs(fext).sum() + 1e-300):
+        return ('stiffened bay: fext.c = %.9e differs from the virtual work %.9e of the forces on skin, flanges and bases'
+                % (float(fext @ c), work))
+    return None
+
+
+def bay_incrementable_predicate(bay, fext):
+    """the property's clause "incrementable forces scaled by the load factor" on a bay: the stiffener flanges and bases are Panel
+    objects with their own add_force(..., cte=False) / forces_inc; a linear static analysis is the load factor 1, so their work
+    belongs into fext . c.  Returns None or a description; judged only when the constant part is right (bay_predicate holds)."""
+    parts = [(t, i, pan, fs, fi) for t, i, pan, fs, fi in bay_parts(bay) if pan is not None]
+    import compmech.panel.modelDB as pm
+    sizes = [pm.db[bay.model]['num'] * bay.m * bay.n] + [pc.quiet(pan.get_size) for _, _, pan, _, _ in parts[1:]]
+    size = sum(sizes)
+    c = np.random.RandomState(size + 1).uniform(-1, 1, size)
+    off, work_c, work_i, n_inc = 0, 0., 0., 0
+    for (t, i, pan, fs, fi), sz in zip(parts, sizes):
+        work_c += work_of(pan, c[off:off + sz], fs)
+        if t != 0:                    # the skin's incrementable list is not part of the bay's API (forces_skin is)
+            work_i += work_of(pan, c[off:off + sz], fi)
+            n_inc += len(fi)
+        off += sz
+    got = float(fext @ c)
+    scale = np.abs(fext).sum() + abs(work_i) + 1e-300
+    if n_inc and abs(got - (work_c + work_i)) > 1e-9 * scale:
+        return ('stiffened bay with %d incrementable forces on stiffener flanges / bases (Panel.add_force(..., cte=False)): fext.c = %.9e, '
+                'the virtual work at load factor 1 is %.9e (constant forces %.9e + incrementable %.9e)' % (n_inc, got, work_c + work_i, work_c, work_i),
+                abs(got - work_c) <= 1e-9 * scale)
+    return None
+
+
+def run_bay_model(case):
+    """-> dict(skip=...) or dict(lines=[...], bay=..., fext=..., calls=..., k0cols=..., inc_outcome=...)"""
+    try:
+        bay, objs = build_bay_loads(case)
+        k0cols = {}
+
+        def wrap(key, real):
+            def f(*a, **kw):
+                k0cols[key] = (kw.get('row0'), kw.get('col0'))
+                return real(*a, **kw)
+            return f
+        wrapped = []
+        for i, s_ in enumerate(bay.bladestiff2ds):
+            s_.calc_k0 = wrap((1, i), s_.calc_k0)
+            wrapped.append(s_)
+        for i, s_ in enumerate(bay.tstiff2ds):
+            s_.calc_k0 = wrap((2, i), s_.calc_k0)
+            wrapped.append(s_)
+        try:
+            pc.quiet(bay.calc_k0, silent=True)
+        finally:
+            for s_ in wrapped:
+                del s_.calc_k0
+    except Exception as e:
+        return dict(skip='%s: %s' % (type(e).__name__, e))      # construction problems are the business of C13 / C20
+    with FieldRecorder() as rec:
+        try:
+            with COV:
+                fext = np.array(pc.quiet(bay.calc_fext, silent=True), dtype=float)
+        except Exception as e:
+            return dict(skip=None, bay=bay, exc='%s: %s' % (type(e).__name__, e))
+    calls = list(rec.calls)
+    try:
+        pc.quiet(bay.calc_fext, inc=0.37, silent=True)
+        inc_outcome = 'returned'
+    except Exception as e:
+        inc_outcome = type(e).__name__
+    lines = [bay_model_line(bay, calls), 'C07 bayfext %s | 3 1 1 # ' % q(0.37)]
+    return dict(skip=None, bay=bay, fext=fext, calls=calls, k0cols=k0cols, inc_outcome=inc_outcome, lines=lines,
+                size=pc.quiet(bay.get_size))
+
+
+def compare_bay_model(out, replies):
+    """None or a description of the first disagreement between Model/BayLoads.lean and StiffPanelBay.calc_fext"""
+    bay, fext = out['bay'], out['fext']
+    rep, rep_inc = replies
+    want_inc = 'raise ' + out['inc_outcome'] if out['inc_outcome'] != 'returned' else 'ok'
+    if not rep_inc.startswith(want_inc):
+        return 'calc_fext(inc=0.37): implementation %s, model replies %r' % (out['inc_outcome'], rep_inc[:40])
+    if not rep.startswith('ok '):
+        return 'model replied %r' % rep[:100]
+    lay_txt, vec_txt = rep[3:].split('|')
+    layout = [tuple(int(v) for v in w.split(':')) for w in lay_txt.split()]
+    parts = {(t, i): (pan, fs) for t, i, pan, fs, fi in bay_parts(bay) if pan is not None}
+    # the fg calls the model's loops imply: per placed part, one call per force of its constant list, in order
+    expected = []
+    for (tag, idx, off, size, nf) in layout:
+        pan, fs = parts[(tag, idx)]
+        expected += [(id(pan), float(f[0]), float(f[1])) for f in fs[:nf]]
+    got = [(c[0], c[1], c[2]) for c in out['calls']]
+    if got != expected:
+        return ('sequence of fg calls: the implementation made %d calls, the model\'s loops %d (first difference at call %d)'
+                % (len(got), len(expected), next((k for k, (x, y) in enumerate(zip(got, expected)) if x != y), min(len(got), len(expected)))))
+    # offsets: the slice a part's forces load must be the slice its stiffness occupies (col0 the bay hands to the stiffener in calc_k0)
+    for (tag, idx, off, size, nf) in layout:
+        if tag == 1 and out['k0cols'].get((1, idx), (None, None))[1] != off:
+            return 'flange of 2-D blade %d: fext slice starts at %d (model), calc_k0 places it at col0 = %r' % (idx, off, out['k0cols'].get((1, idx)))
+        if tag == 2 and out['k0cols'].get((2, idx), (None, None))[1] != off:
+            return 'base of T stiffener %d: fext slice starts at %d (model), calc_k0 places it at col0 = %r' % (idx, off, out['k0cols'].get((2, idx)))
+        if tag == 3:
+            col0 = out['k0cols'].get((2, idx), (None, None))[1]
+            if col0 is None or col0 + pc.quiet(bay.tstiff2ds[idx].base.get_size) != off:
+                return 'flange of T stiffener %d: fext slice starts at %d (model), calc_k0 places it at col0 + base size = %r' % (idx, off, col0)
+    mv = [unq(x) for x in vec_txt.split()]
+    if len(mv) != len(fext) or len(mv) != out['size']:
+        return 'length: model %d, calc_fext %d, get_size %d' % (len(mv), len(fext), out['size'])
+    scale = max(np.abs(fext).max(), 1e-300) if len(fext) else 1.
+    worst = max([abs(float(a) - b) for a, b in zip(mv, fext)] + [0.])
+    if worst > 1e-12 * scale:
+        k = int(np.argmax([abs(float(a) - b) for a, b in zip(mv, fext)]))
+        part = [(t, i) for (t, i, off, sz, nf) in layout if off <= k < off + sz]
+        return ('external force vector: entry %d (part tag:index %s) is %.6e in the implementation, %.6e in the model (fg rows as recorded)'
+                % (k, part, fext[k], float(mv[k])))
+    return None
+
+
+def bay_model_cases(ctx, rng, ncases, dist):
+    """bays through the model; a disagreement is first tried as a failing input of the property on the same bay"""
+    outs = []
+    for t in range(ncases):
+        case = gen_bay_loads(rng, scale=rng.choice([1., 1., 1e-9, 1e5]))
+        ctx.evaluations += 1
+        out = run_bay_model(case)
+        if out['skip']:
+            dist['bays_skipped'] = dist.get('bays_skipped', 0) + 1
+            continue
+        if 'exc' in out:
+            ctx.violation('C07 fails on the implementation: StiffPanelBay.calc_fext raised ' + out['exc'], dict(case=case, derived='bay-model'))
+            return False
+        out['case'] = case
+        outs.append(out)
+        nparts = sum(1 for p_ in bay_parts(out['bay']) if p_[2] is not None)
+        multi = sum(1 for p_ in bay_parts(out['bay']) if p_[2] is not None and len(p_[3]) >= 2)
+        dist['bay_parts'] = dist.get('bay_parts', 0) + nparts
+        dist['bay_parts_with_2+_forces'] = dist.get('bay_parts_with_2+_forces', 0) + multi
+        dist['bays_with_padup_only_blade'] = dist.get('bays_with_padup_only_blade', 0) + any(p_[2] is None for p_ in bay_parts(out['bay']))
+        if multi and nparts >= 3:
+            ctx.nontrivial.add(('bay', nparts, multi, t))
+    lines = [l for o in outs for l in o['lines']]
+    reps = driver(lines) if lines else []
+    for k, o in enumerate(outs):
+        d = compare_bay_model(o, reps[2 * k:2 * k + 2])
+        bad = bay_predicate(o['bay'], o['fext'])
+        if d:
+            if bad:
+                ctx.violation('C07 fails on the implementation: %s  [found through the model/implementation disagreement on '
+                              'StiffPanelBay.calc_fext: %s]' % (bad, d), dict(case=o['case'], derived='bay-model'))
+            else:
+                ctx.violation('model/implementation disagreement on StiffPanelBay.calc_fext: %s; the virtual-work predicate holds on this bay'
+                              % d, dict(case=o['case'], derived='bay-model', tie='H Model/BayLoads.lean bayFext'), found_input=False)
+            return False
+        if bad:
+            ctx.violation('C07 fails on the implementation: ' + bad, dict(case=o['case'], derived='bay-model'))
+            return False
+        inc_bad = bay_incrementable_predicate(o['bay'], o['fext'])
+        if inc_bad:
+            # listed finding ONLY in its exact form: the constant forces are all there and the incrementable ones of the stiffener
+            # parts are missing altogether (Model/BayLoads.lean: bay_fext_no_load_factor); anything else is a new violation
+            ident = 'C07-bay-ignores-incrementable-forces-of-stiffener-parts' if inc_bad[1] else None
+            dist['bays_with_incrementable_stiffener_forces'] = dist.get('bays_with_incrementable_stiffener_forces', 0) + 1
+            if ctx.violation('C07 fails on the implementation: ' + inc_bad[0], dict(case=o['case'], derived='bay-model-inc'), identity=ident):
+                return False
+    dist['bays_through_model'] = dist.get('bays_through_model', 0) + len(outs)
+    return True
+
+
+# ---------------------------------------------------------------------------- assemblies with col_start
+def gen_assembly_loads(rng):
+    n = rng.randint(2, 4)
+    cs = [pc.gen_panel_case(rng, models=('Plate', 'Plate', 'CPanel', 'PlateW'), max_mn=3, y12=False) for _ in range(n)]
+    pats = [rng.choice(['none', 'const', 'inc', 'inc', 'both']) for _ in range(n)]
+    if 'inc' not in pats and rng.random() < 0.7:
+        pats[rng.randrange(n)] = 'inc'
+    scale = rng.choice([1., 1., 1e-9, 1e5])
+    for c, pat in zip(cs, pats):
+        c['forces'] = rand_forces(rng, c['a'], c['b'], 3, scale) if pat in ('const', 'both') else []
+        c['forces_inc'] = rand_forces(rng, c['a'], c['b'], 3, scale) if pat in ('inc', 'both') else []
+        if pat in ('const', 'both') and not c['forces']:
+            c['forces'] = rand_forces(rng, c['a'], c['b'], 1, scale) or [[0., 0., scale, scale, scale]]
+        if pat in ('inc', 'both') and not c['forces_inc']:
+            c['forces_inc'] = [[c['a'] / 2., c['b'] / 2., scale, -scale, scale]]
+    return dict(kind='asm-model', panels=cs, patterns=pats, inc=rng.choice([None, 1., 0.3, rng.uniform(0, 2)]))
+
+
+def run_assembly_model(case):
+    from compmech.panel.assembly import PanelAssembly
+    import compmech.panel.modelDB as pm
+    ps = [pc.make_panel(c) for c in case['panels']]
+    for p, c in zip(ps, case['panels']):
+        p._rebuild()
+        p.forces = [list(f) for f in c['forces']]
+        p.forces_inc = [list(f) for f in c['forces_inc']]
+    with COV:
+        asm = PanelAssembly(ps, conn=[])
+        kw = {} if case['inc'] is None else dict(inc=case['inc'])
+        fext = np.array(pc.quiet(asm.calc_fext, silent=True, **kw), dtype=float)
+        asm.get_size()
+    fields = []
+    for p in ps:
+        num = pm.db[p.model]['num']
+        n = num * p.m * p.n
+        fields.append('%d %d %d # %s # %s' % (num, p.m, p.n, forces_text(p, p.forces, n), forces_text(p, p.forces_inc, n)))
+    line = 'C07 asmfext %s | %s' % ('none' if case['inc'] is None else q(case['inc']), ' | '.join(fields))
+    return dict(asm=asm, ps=ps, fext=fext, line=line, size=asm.get_size())
+
+
+def assembly_predicate(case, out):
+    ps, fext, size = out['ps'], out['fext'], out['size']
+    inc = 1. if case['inc'] is None else case['inc']
+    if np.shape(fext) != (size,):
+        return 'assembly fext has shape %r, size is %d' % (np.shape(fext), size)
+    for p in ps:
+        pc.quiet(p.calc_k0, silent=True)
+    c = np.random.RandomState(size).uniform(-1, 1, size)
+    work = 0.
+    for p in ps:
+        cl = c[p.col_start:p.col_start + p.get_size()]
+        work += work_of(p, cl, p.forces) + work_of(p, cl, p.forces_inc, inc)
+    if abs(float(fext @ c) - work) > 1e-9 * (np.abs(fext).sum() + abs(work) + 1e-300):
+        return ('assembly fext.c = %.9e differs from the virtual work %.9e of the panels\' forces (inc = %r, load patterns %s)'
+                % (float(fext @ c), work, case['inc'], case['patterns']))
+    return None
+
+
+def compare_assembly_model(out, rep):
+    if not rep.startswith('ok '):
+        return 'model replied %r' % rep[:100]
+    lay_txt, vec_txt = rep[3:].split('|')
+    starts = [tuple(int(v) for v in w.split(':')) for w in lay_txt.split()]
+    real = [(p.col_start, p.get_size()) for p in out['ps']]
+    if starts != real:
+        return 'col_start / size of the panels: implementation %r, model %r' % (real, starts)
+    mv = [unq(x) for x in vec_txt.split()]
+    fext = out['fext']
+    if len(mv) != out['size'] or np.shape(fext) != (out['size'],):
+        return 'length: model %d, get_size %d, calc_fext %r' % (len(mv), out['size'], np.shape(fext))
+    scale = max(np.abs(fext).max(), max([abs(float(v)) for v in mv] + [0.]), 1e-300)
+    diffs = [abs(float(a) - b) for a, b in zip(mv, fext)]
+    if max(diffs + [0.]) > 1e-12 * scale:
+        k = int(np.argmax(diffs))
+        pk = [i for i, (c0, n) in enumerate(real) if c0 <= k < c0 + n]
+        return 'external force vector: entry %d (panel %s) is %.6e in the implementation, %.6e in the model' % (k, pk, fext[k], float(mv[k]))
+    return None
+
+
+def assembly_model_cases(ctx, rng, ncases, dist):
+    cases, outs = [], []
+    for t in range(ncases):
+        case = gen_assembly_loads(rng)
+        ctx.evaluations += 1
+        try:
+            out = run_assembly_model(case)
+        except Exception as e:
+            ctx.violation('C07 fails on the implementation: PanelAssembly.calc_fext raised %s: %s' % (type(e).__name__, e),
+                          dict(case=case, derived='asm-model'))
+            return False
+        cases.append(case); outs.append(out)
+        for pat in case['patterns']:
+            dist['asm_pattern_' + pat] = dist.get('asm_pattern_' + pat, 0) + 1
+        if 'inc' in case['patterns'] and case['inc'] not in (None, 1.):
+            ctx.nontrivial.add(('asm', tuple(case['patterns']), case['inc']))
+    reps = driver([o['line'] for o in outs]) if outs else []
+    for case, out, rep in zip(cases, outs, reps):
+        d = compare_assembly_model(out, rep)
+        bad = assembly_predicate(case, out)
+        if d:
+            if bad:
+                ctx.violation('C07 fails on the implementation: %s  [found through the model/implementation disagreement on '
+                              'PanelAssembly.calc_fext: %s]' % (bad, d), dict(case=case, derived='asm-model'))
+            else:
+                ctx.violation('model/implementation disagreement on PanelAssembly.calc_fext: %s; the virtual-work predicate holds on this '
+                              'assembly' % d, dict(case=case, derived='asm-model', tie='H Model/BayLoads.lean asmCalcFext'), found_input=False)
+            return False
+        if bad:
+            ctx.violation('C07 fails on the implementation: ' + bad, dict(case=case, derived='asm-model'))
+            return False
+    dist['assemblies_through_model'] = dist.get('assemblies_through_model', 0) + len(outs)
+    return True
+
+
+# ---------------------------------------------------------------------------- Analysis.static(NLgeom=False), Panel.static, static()
+def gen_static_case(rng):
+    from tools.props import C13
+    kind = rng.choice(['panel', 'panel.static', 'asm', 'asm', 'bay', 'bay', 'fn', 'raises'])
+    scale = rng.choice([1., 1., 1e-10, 1e6])
+    pre = rng.choice([None, dict(increments=[0.3, 0.7], cs_len=2, last='lb'), dict(increments=[1.], cs_len=1, last='static')])
+    case = dict(kind='static-model', what=kind, scale=scale, pre=pre)
+    if kind in ('panel', 'panel.static', 'fn', 'raises'):
+        c = pc.gen_panel_case(rng, models=('Plate', 'CPanel', 'PlateW'), max_mn=2, y12=False)
+        c['forces'] = rand_forces(rng, c['a'], c['b'], 2, scale)
+        c['forces_inc'] = rand_forces(rng, c['a'], c['b'], 2, scale)
+        case['panel'] = c
+        if kind == 'raises':
+            case['raiser'] = rng.choice(['calc_fext', 'calc_k0'])
+    elif kind == 'asm':
+        a = C13.gen_asm(rng)
+        keep = min(len(a['panels']), 3)
+        a['panels'] = a['panels'][:keep]
+        a['conns'] = [c_ for c_ in a['conns'] if c_['p1'] < keep and c_['p2'] < keep]
+        pats = [rng.choice(['const', 'inc', 'both', 'none']) for _ in a['panels']]
+        for c, pat in zip(a['panels'], pats):
+            c['forces'] = rand_forces(rng, c['a'], c['b'], 2, scale) if pat in ('const', 'both') else []
+            c['forces_inc'] = [[c['a'] / 3., c['b'] / 2., scale, scale, -scale]] + rand_forces(rng, c['a'], c['b'], 1, scale) \
+                if pat in ('inc', 'both') else []
+        case['asm'], case['patterns'] = a, pats
+    else:
+        for _ in range(20):
+            b = gen_bay_loads(rng, scale)
+            sz = 3 * b['m'] * b['n'] + sum((3 * s_['mf'] * s_['nf'] if s_['flange'] and s_['type'] in ('b2', 't') else 0)
+                                           + (3 * s_['mb'] * s_['nb'] if s_['type'] == 't' else 0) for s_ in b['stiffs'])
+            if sz <= 90:
+                break
+        case['bay'] = b
+    return case
+
+
+def run_static_model(case):
+    """runs the linear static analysis with calc_fext, calc_k0, solve and spsolve recorded -> dict"""
+    import compmech.sparse as sp
+    import importlib
+    am = importlib.import_module('compmech.analysis.analysis')
+    sm = importlib.import_module('compmech.analysis.static')       # (`compmech.analysis.static` the attribute is the function)
+    from compmech.analysis import Analysis
+    from scipy.sparse import coo_matrix
+    from tools.props import C13
+    kind = case['what']
+    model_fext_line = None
+    try:
+        if kind in ('panel', 'panel.static', 'fn', 'raises'):
+            c = case['panel']
+            p = pc.make_panel(c)
+            p.forces = [list(f) for f in c['forces']]
+            p.forces_inc = [list(f) for f in c['forces_inc']]
+            owner, f_fext, f_k0 = p, p.calc_fext, p.calc_k0
+            if kind == 'raises':
+                def boom(*a, **kw):
+                    raise ValueError('no laminate defined')
+                if case['raiser'] == 'calc_fext':
+                    f_fext = boom
+                else:
+                    f_k0 = boom
+        elif kind == 'asm':
+            asm, ps, conn = C13.build_asm(case['asm'])
+            owner, f_fext, f_k0 = asm, asm.calc_fext, asm.calc_k0
+        else:
+            bay, objs = build_bay_loads(case['bay'])
+            owner, f_fext, f_k0 = bay, bay.calc_fext, bay.calc_k0
+    except Exception as e:      # construction problems are the business of C13 / C20
+        return dict(skip='%s: %s' % (type(e).__name__, e))
+    log = []
+
+    def wrap_callable(name, real):
+        def f(*a, **kw):
+            e = dict(name=name, nargs=len(a), kw=dict(kw))
+            log.append(e)
+            try:
+                out = real(*a, **kw)
+            except Exception as ex:
+                e['exc'] = type(ex).__name__
+                raise
+            e['out'] = out
+            return out
+        return f
+    real_solve, real_spsolve = sp.solve, sp.spsolve
+
+    def solve_w(*a, **kw):
+        e = dict(name='solve', a=a, kw=dict(kw))
+        log.append(e)
+        out = real_solve(*a, **kw)
+        e['out'] = out
+        return out
+
+    def spsolve_w(A, b, **kw):
+        e = dict(name='spsolve', A=np.array(A.toarray() if hasattr(A, 'toarray') else A, dtype=float), b=np.array(b, dtype=float, copy=True),
+                 kw=dict(kw))
+        log.append(e)
+        import warnings
+        with warnings.catch_warnings():
+            warnings.simplefilter('ignore')        # MatrixRankWarning of a singular reduced system: see px_finite below
+            px = real_spsolve(A, b, **kw)
+        e['px'] = np.array(px, dtype=float, copy=True)
+        return px
+    res = dict(kind=kind, log=log, owner=owner)
+    am_solve, sm_solve = am.solve, sm.solve
+    am.solve, sm.solve, sp.spsolve = solve_w, solve_w, spsolve_w
+    try:
+        if kind == 'fn':
+            K = pc.quiet(f_k0, silent=True)
+            fx = pc.quiet(f_fext, silent=True)
+            res['fn_args'] = (K, fx)
+            with COV:
+                ret = pc.quiet(sm.static, K, fx, silent=True)
+            res.update(ret=ret, increments=ret[0], cs=ret[1], last=None, fext_out=fx, k0_out=K)
+        else:
+            if kind == 'panel.static':
+                an = owner.analysis
+                an.calc_fext, an.calc_k0 = wrap_callable('calc_fext', an.calc_fext), wrap_callable('calc_k0', an.calc_k0)
+            else:
+                an = Analysis(wrap_callable('calc_fext', f_fext), wrap_callable('calc_k0', f_k0))
+            if case['pre']:
+                an.increments = list(case['pre']['increments'])
+                an.cs = [np.ones(3) for _ in range(case['pre']['cs_len'])]
+                an.last_analysis = case['pre']['last']
+            res['pre_last'] = an.last_analysis
+            try:
+                with COV:
+                    if kind == 'panel.static':
+                        ret = pc.quiet(owner.static, silent=True)
+                    else:
+                        ret = pc.quiet(an.static, NLgeom=False, silent=True)
+                if kind == 'panel.static':
+                    res['panel_ret_is_cs'] = ret is an.cs
+                else:
+                    res['ret_is_state'] = (ret[0] is an.increments) and (ret[1] is an.cs)
+            except Exception as ex:
+                res['raised'] = type(ex).__name__
+            res.update(increments=an.increments, cs=an.cs, last=an.last_analysis)
+            for e in log:
+                if e['name'] == 'calc_fext' and 'out' in e:
+                    res['fext_out'] = e['out']
+                if e['name'] == 'calc_k0' and 'out' in e:
+                    res['k0_out'] = e['out']
+    finally:
+        am.solve, sm.solve, sp.spsolve = am_solve, sm_solve, real_spsolve
+    # ------------------------------------------------------------ the model's operation
+    fx, K = res.get('fext_out'), res.get('k0_out')
+    n = len(fx) if fx is not None else (K.shape[0] if K is not None else 0)
+    trip = ''
+    if K is not None:
+        coo = coo_matrix(K)
+        coo.sum_duplicates()
+        trip = ' ; '.join('%d %d %s' % (i, j, q(v)) for i, j, v in zip(coo.row, coo.col, coo.data))
+    sps = [e for e in log if e['name'] == 'spsolve']
+    px = np.atleast_1d(sps[0]['px']) if sps and 'px' in sps[0] else np.zeros(0)
+    # a singular reduced system (free rigid-body motion, fully restrained field) makes SuperLU answer NaN / inf: the glue is still
+    # compared (calls, reduced system, state), the VALUES of the scatter are not
+    res['px_finite'] = bool(np.all(np.isfinite(px)))
+    px = np.where(np.isfinite(px), px, 0.)
+    ef = next((e['exc'] for e in log if e['name'] == 'calc_fext' and 'exc' in e), '-')
+    ek = next((e['exc'] for e in log if e['name'] == 'calc_k0' and 'exc' in e), '-')
+    res['line'] = 'C07 static %d %s %s %s | %s | %s | %s' % (n, (res.get('pre_last') or '_'), ef, ek, trip,
+                                                            ' '.join(q(v) for v in (fx if fx is not None else [])),
+                                                            ' '.join(q(v) for v in np.atleast_1d(px)))
+    res['n'] = n
+    # the load vector the analysis must have been handed: the owner's vector at the default load factor 1
+    try:
+        if kind in ('panel', 'panel.static', 'fn'):
+            pnl = owner
+            pc.quiet(pnl._rebuild)
+            size = pnl.get_size()
+            c = case['panel']
+
+            def fl(f):
+                return force_text(f, shape_rows(pnl, f[0], f[1]), size)
+            res['fext_line'] = 'C07 fext %s 0 %d %d | %s | %s' % (q(1.), size, size, ' ; '.join(fl(f) for f in c['forces']),
+                                                                 ' ; '.join(fl(f) for f in c['forces_inc']))
+        elif kind == 'asm':
+            import compmech.panel.modelDB as pm
+            fields = []
+            for p_ in owner.panels:
+                num = pm.db[p_.model]['num']
+                n_ = num * p_.m * p_.n
+                fields.append('%d %d %d # %s # %s' % (num, p_.m, p_.n, forces_text(p_, p_.forces, n_), forces_text(p_, p_.forces_inc, n_)))
+            res['fext_line'] = 'C07 asmfext none | ' + ' | '.join(fields)
+        elif kind == 'bay':
+            res['fext_line'] = bay_model_line(owner)
+    except Exception as e:
+        res['fext_line_exc'] = '%s: %s' % (type(e).__name__, e)
+    return res
+
+
+def compare_static_model(case, res, rep, rep_fext):
+    log, kind = res['log'], res['kind']
+    if not rep.startswith('ok '):
+        return 'model replied %r' % rep[:100]
+    f = [x.strip() for x in rep[3:].split('|')]
+    m_calls, m_used, m_red, m_rhs, m_inc, m_cs, m_last, m_raised = f
+    names = [e['name'] for e in log]
+    if kind == 'fn':
+        if names != ['solve', 'spsolve']:
+            return 'static(): calls made %r, expected solve -> spsolve' % names
+        sv = log[0]
+        if len(sv['a']) != 2 or sv['a'][0] is not res['fn_args'][0] or sv['a'][1] is not res['fn_args'][1] or sv['kw'] != dict(silent=True):
+            return 'static(): solve was not handed (K, fext, silent=silent) as given'
+    else:
+        want = m_calls.split()
+        got = []
+        for e in log:
+            if e['name'] == 'calc_fext':
+                got.append('calc_fext(inc)' if ('inc' in e['kw'] or e['nargs'] > 0) else 'calc_fext()')
+            elif e['name'] == 'calc_k0':
+                got.append('calc_k0()')
+            elif e['name'] == 'solve':
+                got.append('solve()')
+        if got != want:
+            return 'calls of the linear analysis: implementation %r, model %r' % (got, want)
+        for e in log:
+            if e['name'] in ('calc_fext', 'calc_k0') and (e['nargs'] != 0 or e['kw'] != dict(silent=True)):
+                return '%s was called with %d positional arguments and keywords %r; the model: only silent=silent' % (e['name'], e['nargs'], e['kw'])
+        raised = res.get('raised', '-')
+        if raised != m_raised:
+            return 'exception: implementation %r, model %r' % (raised, m_raised)
+        last_impl = res['last'] if res['last'] != '' else '_'
+        if last_impl != m_last:
+            return 'last_analysis: implementation %r, model %r' % (res['last'], m_last)
+        if raised != '-':
+            if list(res['increments']) != [] or list(res['cs']) != [] or m_inc != '' or m_cs != '-':
+                return 'state after the exception: increments %r, %d solutions; model: both empty' % (res['increments'], len(res['cs']))
+            return None
+        sv = [e for e in log if e['name'] == 'solve']
+        if len(sv) != 1 or len(sv[0]['a']) != 2 or sv[0]['a'][0] is not res['k0_out'] or sv[0]['a'][1] is not res['fext_out'] \
+                or sv[0]['kw'] != dict(silent=True):
+            return 'solve was not handed (k0, fext, silent=silent) exactly as calc_k0 / calc_fext returned them'
+        if kind == 'panel.static' and not res.get('panel_ret_is_cs'):
+            return 'Panel.static does not return analysis.cs'
+        if kind != 'panel.static' and not res.get('ret_is_state'):
+            return 'Analysis.static does not return (self.increments, self.cs)'
+    inc_m = [float(unq(x)) for x in m_inc.split()]
+    if [float(v) for v in res['increments']] != inc_m:
+        return 'increments: implementation %r, model %r' % (list(res['increments']), inc_m)
+    if len(res['cs']) != 1:
+        return 'cs holds %d vectors, the model one' % len(res['cs'])
+    used = [int(x) for x in m_used.split()]
+    sps = [e for e in log if e['name'] == 'spsolve']
+    if len(sps) != 1:
+        return ('the model hands the reduced system (%d active of %d amplitudes) to the sparse solver once; the implementation called it %d times'
+                % (len(used), res['n'], len(sps)))
+    red = np.array([float(unq(x)) for x in m_red.split()]).reshape(len(used), len(used))
+    rhs = np.array([float(unq(x)) for x in m_rhs.split()])
+    if sps[0]['A'].shape != red.shape or not np.array_equal(sps[0]['A'], red):
+        return 'reduced matrix handed to spsolve differs from the model\'s k0[used][:, used] (%r vs %r)' % (sps[0]['A'].shape, red.shape)
+    if sps[0]['b'].shape != rhs.shape or not np.array_equal(sps[0]['b'], rhs):
+        return 'reduced right-hand side handed to spsolve differs from the model\'s fext[used]'
+    cm = np.array([float(unq(x)) for x in m_cs.split()])
+    c = np.asarray(res['cs'][0], dtype=float)
+    if c.shape != cm.shape:
+        return 'stored solution has shape %r, the model\'s %r' % (c.shape, cm.shape)
+    if not res['px_finite']:
+        null = [k for k in range(len(c)) if k not in set(used)]
+        if null and not np.all(c[null] == 0):
+            return 'non-zero value stored on an amplitude without stiffness'
+    elif np.abs(c - cm).max() > 1e-12 * max(np.abs(cm).max(), 1e-300):
+        return ('stored solution differs from the model (scatter of the recorded solver answer into the active amplitudes): max difference %.3e, '
+                'max |c| model %.3e, implementation %.3e' % (np.abs(c - cm).max() if c.shape == cm.shape else float('nan'),
+                                                          np.abs(cm).max(), np.abs(c).max()))
+    # the load vector: the owner's own vector at the default load factor (model ops fext / asmfext / bayfext)
+    if rep_fext is not None:
+        if not rep_fext.startswith('ok '):
+            return 'load-vector model replied %r' % rep_fext[:100]
+        vec = rep_fext[3:].split('|')[-1]
+        mv = np.array([float(unq(x)) for x in vec.split()])
+        fx = np.asarray(res['fext_out'], dtype=float)
+        if mv.shape != fx.shape or np.abs(mv - fx).max() > 1e-12 * max(np.abs(mv).max(), np.abs(fx).max(), 1e-300):
+            return 'the load vector the analysis solved for is not the model\'s vector at load factor 1 (incrementable forces at full value)'
+    return None
+
+
+def static_predicate(res):
+    """the property on the implementation: K c = f on the active amplitudes, zero elsewhere (judged only when the system is regular)"""
+    if 'k0_out' not in res or 'fext_out' not in res or not res.get('cs'):
+        return None
+    from scipy.sparse import csr_matrix
+    A = csr_matrix(res['k0_out']).toarray()
+    b = np.asarray(res['fext_out'], dtype=float)
+    x = np.asarray(res['cs'][0], dtype=float)
+    if not (np.all(np.isfinite(x)) and np.all(np.isfinite(b)) and np.all(np.isfinite(A))):
+        return None
+    act = np.unique(np.nonzero(A)[1])
+    if x.shape != b.shape:
+        return 'static solution has shape %r, the load vector %r' % (x.shape, b.shape)
+    null = [k for k in range(len(b)) if k not in set(act)]
+    if null and np.abs(x[null]).max() != 0:
+        return 'static solution is not zero on amplitudes without stiffness'
+    if len(act) == 0:
+        return None
+    Ar = A[np.ix_(act, act)]
+    if np.linalg.cond(Ar) > 1e10:
+        return None
+    r = A @ x - b
+    den = np.abs(A) @ np.abs(x) + np.abs(b)
+    cw = np.abs(r[act]) / np.maximum(den[act], 1e-300)
+    if cw.max() > 1e-7:
+        return ('static solution does not satisfy K c = f on every active amplitude: row-wise backward error %.3e at amplitude %d '
+                '(max |f| = %.3e, max |c| = %.3e)' % (cw.max(), act[int(cw.argmax())], np.abs(b).max(), np.abs(x).max()))
+    return None
+
+
+def static_model_cases(ctx, rng, ncases, dist):
+    cases, ress = [], []
+    for t in range(ncases):
+        case = gen_static_case(rng)
+        ctx.evaluations += 1
+        res = run_static_model(case)
+        if res.get('skip'):
+            dist['static_skipped'] = dist.get('static_skipped', 0) + 1
+            continue
+        cases.append(case); ress.append(res)
+        dist['static_' + case['what']] = dist.get('static_' + case['what'], 0) + 1
+        dist['static_singular_values_not_compared'] = dist.get('static_singular_values_not_compared', 0) + (not res['px_finite'])
+        if case['scale'] != 1. and case['what'] != 'raises':
+            ctx.nontrivial.add(('static', case['what'], case['scale'], t))
+    lines = []
+    for r in ress:
+        lines.append(r['line'])
+        if r.get('fext_line') and 'fext_out' in r:
+            lines.append(r['fext_line'])
+    reps = driver(lines) if lines else []
+    k = 0
+    for case, r in zip(cases, ress):
+        rep = reps[k]; k += 1
+        rep_fext = None
+        if r.get('fext_line') and 'fext_out' in r:
+            rep_fext = reps[k]; k += 1
+        d = compare_static_model(case, r, rep, rep_fext)
+        bad = static_predicate(r)
+        if d:
+            if bad:
+                ctx.violation('C07 fails on the implementation: %s  [found through the model/implementation disagreement on the linear static '
+                              'analysis: %s]' % (bad, d), dict(case=case, derived='static-model'))
+            else:
+                ctx.violation('model/implementation disagreement on the linear static analysis (%s): %s' % (case['what'], d),
+                              dict(case=case, derived='static-model', tie='H Model/BayLoads.lean analysisStatic / solve'), found_input=False)
+            return False
+        if bad:
+            ctx.violation('C07 fails on the implementation: ' + bad, dict(case=case, derived='static-model'))
+            return False
+    dist['static_through_model'] = dist.get('static_through_model', 0) + len(ress)
+    return True
+
+
 def correspondence(ctx):
     translate(ctx)
     rng = ctx.rng
     dist = dict(models={}, n_forces={}, placed=0)
+    ctx.cov['input_distribution'] = dist
     lines, impl, cases = [], [], []
     for t in range(ctx.scale(40, 400)):
         case = gen(ctx, rng)
@@ -362,6 +1216,24 @@ def correspondence(ctx):
             ctx.violation('model/implementation disagreement on sparse.solve scatter', dict(case=desc, tie='H scatter'),
                           found_input=False)
             return
+    # Model/BayLoads.lean: bay load vector, assembly load vector with col_start, linear static analysis
+    global COV
+    COV = LineCov()
+    try:
+        if not bay_model_cases(ctx, rng, ctx.scale(25, 250), dist):
+            return
+        if not assembly_model_cases(ctx, rng, ctx.scale(15, 150), dist):
+            return
+        if not static_model_cases(ctx, rng, ctx.scale(16, 160), dist):
+            return
+    finally:
+        cov, COV = COV.report(), _NoCov()
+        ctx.cov['line_coverage'] = cov
+        # lines of the modelled functions the model does not describe: the non-linear branch of Analysis.static (C09), the
+        # NotImplementedError of static(), and the col_start guard of the assembly (col_start is always set by __init__)
+        for k, v in cov.items():
+            if v['missed']:
+                ctx.notes.append('modelled function %s: lines never executed by the correspondence: %s' % (k, v['missed']))
     for t in range(ctx.scale(5, 40)):
         c, bad = assembly_case(ctx, rng)
         ctx.evaluations += 1
@@ -374,7 +1246,7 @@ def correspondence(ctx):
         if bad and ctx.violation('C07 fails on the implementation: ' + bad, dict(case=c, derived='bay'), identity=ident):
             return
     nb = 0
-    for t in range(ctx.scale(25, 200)):
+    for t in range(ctx.scale(8, 100)):
         c, bad = stiffened_bay_case(ctx, rng)
         ctx.evaluations += 1
         nb += sum(1 for x in c.get('stiffs', []) if x[1] or x[2]) >= 1
@@ -406,5 +1278,30 @@ def replay(ctx, data):
         line, fext, bad = run_panel(ctx, r['case'])
         print('property on implementation:', bad)
         return 1 if bad else 0
+    if r.get('derived') in ('bay-model', 'asm-model', 'static-model') and r.get('case'):
+        case = r['case']
+        if r['derived'] == 'bay-model':
+            out = run_bay_model(case)
+            if out.get('skip') or 'exc' in out:
+                print('bay:', out.get('skip') or out.get('exc'))
+                return 1 if 'exc' in out else 0
+            d = compare_bay_model(out, driver(out['lines']))
+            bad = bay_predicate(out['bay'], out['fext'])
+        elif r['derived'] == 'asm-model':
+            out = run_assembly_model(case)
+            d = compare_assembly_model(out, driver([out['line']])[0])
+            bad = assembly_predicate(case, out)
+        else:
+            res = run_static_model(case)
+            if res.get('skip'):
+                print('construction:', res['skip'])
+                return 0
+            lines = [res['line']] + ([res['fext_line']] if res.get('fext_line') and 'fext_out' in res else [])
+            reps = driver(lines)
+            d = compare_static_model(case, res, reps[0], reps[1] if len(reps) > 1 else None)
+            bad = static_predicate(res)
+        print('model/implementation disagreement:', d)
+        print('property on implementation:', bad)
+        return 1 if (d or bad) else 0
     print('replay:', data['what'])
     return 1
